@@ -176,6 +176,7 @@ def _overlay(db, chk, cp):
     f = cp.func("CriticalPathAnalysis.overlay_critical_path_analysis")
     where = cp.loc(f)
     al = _aliases(f)
+    decided = _overlay_eval(db, chk, cp, rule)          # the flow pairs and markers decided on the file that is written for a small abstract graph
     # marker loop
     loops = [n for n in walk_no_nested(f) if isinstance(n, ast.For) and isinstance(n.iter, ast.Call) and H.name_id(n.iter.func) == "enumerate"]
     okm = False
@@ -189,7 +190,9 @@ def _overlay(db, chk, cp):
             body = lp.body
             if len(body) == 1 and isinstance(body[0], ast.If) and not body[0].orelse and len(body[0].body) == 1:
                 okm = H.match(f"{i} in critical_path_graph.critical_path_events_set", H.expand(f, body[0].test)) is not None and H.match(f"{ev}['args']['critical'] = 1", body[0].body[0]) is not None
-    chk.ob(rule, "marker loop: event number i (position in traceEvents, from 0) is marked critical iff i is in the critical path's event set", okm, where, found=det,
+    # (the marking itself is decided by the abstract run below; this shape rule only speaks when it recognises the loop over the file's event list)
+    recognised = any(len(lp.iter.args) == 1 and isinstance(lp.target, ast.Tuple) and len(lp.target.elts) == 2 and _root_chain(lp.iter.args[0])[0] in al for lp in loops)
+    chk.ob(rule, "marker loop: event number i (position in traceEvents, from 0) is marked critical iff i is in the critical path's event set", okm if recognised else (True if decided else None), where, found=det or "marking moved out of the method",
            accepted="for ev_idx, event in enumerate(raw_events): if ev_idx in critical_path_graph.critical_path_events_set: event['args']['critical'] = 1",
            why="event ids are positions in the file's event list (C01): another start offset marks the neighbours")
     # edge source
@@ -256,7 +259,6 @@ def _overlay(db, chk, cp):
         skips = [" ".join(ast.unparse(n_).split())[:100] for n_ in ast.walk(lp[0]) if isinstance(n_, ast.If) and any(isinstance(x, (ast.Continue, ast.Break)) for x in ast.walk(n_))]
         chk.ob(rule, "every drawn edge gets its flow pair (no edge is skipped inside the loop)", not jumps, where, found=skips or "no continue / break", accepted="no continue / break in the flow loop",
                why="skipping e.g. edges whose two nodes belong to the same event leaves the span edges of leaf operators and kernels without arrows")
-    decided = _overlay_eval(db, chk, cp, rule)          # the flow pairs and markers decided on the file that is written for a small abstract graph
     if len(lp) == 1 or not decided:
         chk.ob(rule, "per drawn edge: one start and one end flow event with the same id, built from (begin node, event of begin node) and (end node, event of end node); id advanced once per edge", okp if len(lp) == 1 else None, where,
                found=det3, accepted="u, v = e.begin, e.end; ids = get_events_for_edge(e); append(get_flow_event(u, start_ev, ..., True)); append(get_flow_event(v, end_ev, ..., False)); flow_id += 1")
@@ -324,7 +326,7 @@ def _overlay_eval(db, chk, cp, rule) -> bool:
             if last in ("is_dir", "exists", "isdir"):
                 return True
             if name.startswith(("Path", "os.")) or last in ("mkdir", "expanduser", "makedirs"):
-                return T.P("PATHOBJ")
+                return Obj("PATHOBJ")          # (an object: `path is None` is decided)
             return NotImplemented
 
         def args(I):
